@@ -35,8 +35,28 @@ Theorem C16_any_client : forall (strat : list out -> option op) n a s h, Inv a s
 Proof. exact any_client. Qed.
 Print Assumptions C16_any_client.
 
-Theorem C16_init_empty : Inv (a_init []) (spec_init []).
-Proof. exact Inv_empty. Qed.
+(* (3) the relation holds between the adapter over any admissible persistent starting state
+   (distinct addresses, no empty account, native-only records with non-zero balance, non-zero storage
+   words) and the reference state with the same starting accounts; hence the end-to-end statement *)
+Theorem C16_init : forall st, start_okb st = true -> Inv (a_init st) (spec_init st).
+Proof. exact Inv_start. Qed.
+Print Assumptions C16_init.
+
+Theorem C16_equivalence : forall st ops, start_okb st = true -> pguardedb (a_init st) ops = true ->
+  aoutputs (a_init st) ops = spec_outputs (spec_init st) ops.
+Proof. intros st ops Hs Hg. exact (proj1 (bisim ops _ _ (Inv_start st Hs) Hg)). Qed.
+Print Assumptions C16_equivalence.
+
+Theorem C16_equivalence_any_client : forall (strat : list out -> option op) n st, start_okb st = true ->
+  client_guard n strat (a_init st) [] = true ->
+  client_run_a n strat (a_init st) [] = client_run_s n strat (spec_init st) [].
+Proof. intros strat n st Hs Hg. exact (any_client strat n _ _ [] (Inv_start st Hs) Hg). Qed.
+Print Assumptions C16_equivalence_any_client.
+
+Example C16_start_nonvacuous :
+  start_okb [contract_acct 11%N 50; plain_acct 12%N 7;
+             {| sa_addr := 13%N; sa_bal := 0; sa_nonce := 2; sa_code := 0%N; sa_stor := []; sa_native := false |}] = true.
+Proof. vm_compute. reflexivity. Qed.
 
 (* non-vacuity: a concrete multi-transaction sequence with nested snapshots, reverts across
    account creation, storage, nonce, balance, refund, self-destruct, Finalise and a block commit
